@@ -1,7 +1,148 @@
 """Machine operations for the heteroscedastic conditionals (approximate_conditional.py).
-Mixin for harness/machine.py:Machine."""
+Mixin for harness/machine.py:Machine; every method appends one protocol line (handled by
+lean/GT/DriverHetero.lean) and executes the real library call, exactly like the methods in machine.py.
+
+Public methods of the classes: constructor, linear_layer, get_conditional_mu, get_conditional_cov,
+condition_on_x, set_y, integrate_Sigma_x, get_expected_moments, get_expected_cross_terms,
+affine_{joint,marginal,conditional}_transformation, integrate_log_conditional_y, get_lb_quadratic_term,
+get_lb_log_det.  The `_`-prefixed pieces of the lower bound (`_integrate_noise_diagonal`,
+`_get_omega_dagger`, `k_func`, `_get_omega_star`, `_update_omega_star`, `_lower_bound_integrals`) are
+exposed too, so that the model is compared on the intermediate quantities and on the body of the
+fixed-point iteration (which the public entry points never execute, see `het_omega_star`)."""
 import numpy as np
+
+HETERO_CLASSES = {"exp": "HeteroscedasticExpConditional", "coshm1": "HeteroscedasticCoshM1Conditional"}
+
+
+def hetero_class_tag(o):
+    name = type(o).__name__
+    for tag, cls in HETERO_CLASSES.items():
+        if name == cls:
+            return tag
+    return name
+
+
+def _lib():
+    import machine as mm          # lazy: machine.py imports this module
+    from gaussian_toolbox import approximate_conditional as ac
+    return mm, ac, mm.jnp
 
 
 class HeteroOps:
-    pass
+    # -- constructor ---------------------------------------------------------------------------
+    def hetero(self, cls, M, b, A, W):
+        """cls in {exp, coshm1}; M [R,Dy,Dx], b [R,Dy], A [R,Dy,Da], W [Dk,Dx+1]"""
+        mm, ac, jnp = _lib()
+        M = np.asarray(M, dtype=float); b = np.asarray(b, dtype=float)
+        A = np.asarray(A, dtype=float); W = np.asarray(W, dtype=float)
+        R, Dy, Dx = M.shape
+        Da = A.shape[2]; Dk = W.shape[0]
+        dst = self.new()
+        toks = [cls, R, Dy, Dx, Da, Dk] + mm.arr_tok(M) + mm.arr_tok(b) + mm.arr_tok(A) + mm.arr_tok(W)
+        klass = getattr(ac, HETERO_CLASSES[cls])
+        return self._emit(dst, "hetero", toks,
+                          lambda: klass(M=jnp.asarray(M), b=jnp.asarray(b), A=jnp.asarray(A), W=jnp.asarray(W)),
+                          dict(cls=cls, R=R, Dy=Dy, Dx=Dx, Da=Da, Dk=Dk))
+
+    def _het(self, op, toks, fn, **meta):
+        dst = self.new()
+        return self._emit(dst, op, toks, fn, meta)
+
+    # -- p(y|x) --------------------------------------------------------------------------------
+    def het_linear_layer(self, c, x):
+        return self._het("het_linear_layer", [c, x], lambda: self.regs[c].linear_layer(self.regs[x]))
+
+    def het_cond_mu(self, c, x):
+        return self._het("het_cond_mu", [c, x], lambda: self.regs[c].get_conditional_mu(self.regs[x]))
+
+    def het_cond_cov(self, c, x, which):
+        """which 0: get_conditional_cov(x); 1,2,3: Sigma, Lambda, ln_det of get_conditional_cov(x, invert=True)"""
+        def fn():
+            if which == 0:
+                return self.regs[c].get_conditional_cov(self.regs[x])
+            return self.regs[c].get_conditional_cov(self.regs[x], invert=True)[which - 1]
+        return self._het("het_cond_cov", [c, x, which], fn, which=which)
+
+    def het_condition_on_x(self, c, x):
+        return self._het("het_condition_on_x", [c, x], lambda: self.regs[c].condition_on_x(self.regs[x]))
+
+    def het_set_y(self, c, y):
+        return self._het("het_set_y", [c, y], lambda: self.regs[c].set_y(self.regs[y]))
+
+    # -- moment matching -----------------------------------------------------------------------
+    def het_noise_diag(self, c, p):
+        return self._het("het_noise_diag", [c, p], lambda: self.regs[c]._integrate_noise_diagonal(self.regs[p]))
+
+    def het_integrate_sigma_x(self, c, p):
+        return self._het("het_integrate_sigma_x", [c, p], lambda: self.regs[c].integrate_Sigma_x(self.regs[p]))
+
+    def het_expected_moments(self, c, p, which):
+        return self._het("het_expected_moments", [c, p, which],
+                         lambda: self.regs[c].get_expected_moments(self.regs[p])[which], which=which)
+
+    def het_expected_cross(self, c, p):
+        return self._het("het_expected_cross", [c, p], lambda: self.regs[c].get_expected_cross_terms(self.regs[p]))
+
+    def het_transform(self, which, c, p):
+        name = {"joint": "affine_joint_transformation", "marginal": "affine_marginal_transformation",
+                "conditional": "affine_conditional_transformation"}[which]
+        return self._het("het_" + which, [c, p], lambda: getattr(self.regs[c], name)(self.regs[p]), which=which)
+
+    # -- lower bound of E[ln p(y|x)] -----------------------------------------------------------
+    def het_log_cond_y(self, c, p, y):
+        return self._het("het_log_cond_y", [c, p, y],
+                         lambda: self.regs[c].integrate_log_conditional_y(self.regs[p], self.regs[y]))
+
+    def het_lb_quadratic(self, c, p, y):
+        return self._het("het_lb_quadratic", [c, p, y],
+                         lambda: self.regs[c].get_lb_quadratic_term(self.regs[p], self.regs[y]))
+
+    def het_lb_log_det(self, c, p):
+        return self._het("het_lb_log_det", [c, p], lambda: self.regs[c].get_lb_log_det(self.regs[p]))
+
+    def het_omega_dagger(self, c, p, k):
+        return self._het("het_omega_dagger", [c, p, k],
+                         lambda: self.regs[c]._get_omega_dagger(p_x=self.regs[p], W_i=self.regs[c].W[k]), k=k)
+
+    def het_k_func(self, c, p, k, om):
+        return self._het("het_k_func", [c, p, k, om],
+                         lambda: self.regs[c].k_func(p_x=self.regs[p], W_i=self.regs[c].W[k], omega_dagger=self.regs[om]), k=k)
+
+    def het_omega_star(self, c, p, y, k, a):
+        return self._het("het_omega_star", [c, p, y, k, a],
+                         lambda: self.regs[c]._get_omega_star(p_x=self.regs[p], y=self.regs[y], W_i=self.regs[c].W[k],
+                                                              a_i=self.regs[a]), k=k)
+
+    def het_update_omega(self, c, p, y, k, a, om):
+        return self._het("het_update_omega", [c, p, y, k, a, om],
+                         lambda: self.regs[c]._update_omega_star(p_x=self.regs[p], y=self.regs[y], W_i=self.regs[c].W[k],
+                                                                 a_i=self.regs[a], omega_star=self.regs[om]), k=k)
+
+    def het_lb_integrals(self, c, p, y, k, a, om, which):
+        """which 0: compute_fourth_order=False; 1 / 2: second / fourth order of compute_fourth_order=True"""
+        def fn():
+            o = self.regs[c]
+            kw = dict(p_x=self.regs[p], y=self.regs[y], W_i=o.W[k], a_i=self.regs[a], omega_star=self.regs[om])
+            if which == 0:
+                return o._lower_bound_integrals(**kw)
+            return o._lower_bound_integrals(compute_fourth_order=True, **kw)[which - 1]
+        return self._het("het_lb_integrals", [c, p, y, k, a, om, which], fn, k=k, which=which)
+
+    def het_omega_loop(self, c, p, y, k, a, start, prev):
+        """The while_loop of `_get_omega_star` (same cond_func / body_func, copied from
+        approximate_conditional.py:1085-1089) started from an arbitrary carry.  The class itself always
+        starts it at (omega_dagger, omega_dagger, 0), where the condition is false; this instruction
+        validates the model of the loop (stopping rule, cap of 100 iterations) against lax.while_loop with
+        the library's own `_update_omega_star` as body."""
+        mm, ac, jnp = _lib()
+        from jax import lax
+        def fn():
+            o = self.regs[c]
+            cond_func = lambda val: jnp.logical_and(jnp.max(jnp.abs(val[0] - val[1])) > 1e-5, val[2] < 100)
+            def body_func(val):
+                return o._update_omega_star(p_x=self.regs[p], y=self.regs[y], W_i=o.W[k], a_i=self.regs[a],
+                                            omega_star=val[0]), val[0], val[2] + 1
+            res, _, it = lax.while_loop(cond_func, body_func, (self.regs[start], self.regs[prev], 0))
+            self.last_loop_iterations = int(it)
+            return res
+        return self._het("het_omega_loop", [c, p, y, k, a, start, prev], fn, k=k, harness_replicated_loop=True)
